@@ -367,6 +367,22 @@ Definition exec_named_moved (cfg : config) (th : thresholds) (lg : logger) (sv :
       e1 ++ e2 ++ stream_destroy cfg lg sv st2 ++ ss_destroy cfg lg sv s'
   end.
 
+(* a named stream initialised from a `<<` chain and filled further afterwards:
+     auto s = L::sv(tag) << pre…;      (the chain's last temporary initialises s directly: copy elision)
+     auto&& s = L::sv(tag) << pre…;    (operator<< returns BY VALUE: the reference extends the lifetime of that last temporary)
+     s << post…;   }                   (s dies at the end of the scope)
+   The emptied temporaries of the chain die at the end of the declaration. *)
+Definition exec_named_from_chain (cfg : config) (th : thresholds) (lg : logger) (sv : sev) (tag : option str)
+           (pre post : list item) : list event :=
+  match stream_kind (c_min cfg) sv with
+  | KNull => []
+  | KSmart =>
+      let '((cur, olds), e1) := one_chain (ss_construct th lg sv tag) [] pre in
+      let d1 := flat_map (ss_destroy cfg lg sv) olds in
+      let '(st2, e2) := stream_puts (SSmart cur) post in
+      e1 ++ d1 ++ e2 ++ stream_destroy cfg lg sv st2
+  end.
+
 Inductive op :=
 | OSet (rc k : nat) (s : sev)                                          (* severity_filter<Record rc, k>::set_severity(s) *)
 | OOne (c : sctx) (lg : logger) (sv : sev) (tag : option str) (its : list item)     (* L::sv(tag) << its…;   executed in context c *)
